@@ -61,7 +61,7 @@ Section Machine.
     | RVal v => ({| ins := ins s; outp := Some v;
                     cached := if use_cache then Some (ins s) else cached s;
                     running := false; failed := false; flight := None; cfg := cfg s |}, OValue (Some v))
-    | RRaise t => ({| ins := ins s; outp := outp s; cached := cached s;
+    | RRaise t => ({| ins := ins s; outp := outp s; cached := None;   (* a failed run drops the remembered inputs *)
                       running := false; failed := true; flight := None; cfg := cfg s |}, OUser t)
     end.
 
